@@ -261,3 +261,47 @@ func vrTODO_C11_range_tiling() {
 	}
 	vr.Reach("end")
 }
+
+// CellIndex: after Build, the labels reached from the range containing a probe leaf are
+// exactly the labels of the indexed cells that contain the leaf (arbitrary overlap, nesting
+// and duplicates); range nodes are strictly increasing and bracket the whole curve.
+func Harness_C11_cellindex_contents_thorough() {
+	vr.Unwind(64)
+	n := vr.Choose("n", 1, vrC11N(2, 3))
+	ids := vrCellIDs("id", n)
+	idx := &CellIndex{}
+	for i, id := range ids {
+		idx.Add(id, int32(i))
+	}
+	idx.Build()
+	ok := true
+	for i := 1; i < len(idx.rangeNodes); i++ {
+		ok = vr.And(ok, idx.rangeNodes[i-1].startID < idx.rangeNodes[i].startID)
+	}
+	vr.Assert("range nodes strictly increasing", ok)
+	vr.Assert("range nodes bracket the whole curve", vr.And(idx.rangeNodes[0].startID == CellIDFromFace(0).ChildBeginAtLevel(MaxLevel), idx.rangeNodes[len(idx.rangeNodes)-1].startID == CellIDFromFace(5).ChildEndAtLevel(MaxLevel)))
+	x := vrLeaf("x")
+	r := NewCellIndexRangeIterator(idx)
+	r.Seek(x)
+	vr.Assert("Seek: the probe leaf lies in the range", vr.And(r.StartID() <= x, x < r.LimitID()))
+	c := NewCellIndexContentsIterator(idx)
+	var got [3]bool
+	cnt := 0
+	for c.StartUnion(r); !c.Done(); c.Next() {
+		l := c.Label()
+		for i := 0; i < n; i++ {
+			if l == int32(i) {
+				vr.Assert("each (cell,label) pair reported once", !got[i])
+				got[i] = true
+			}
+		}
+		cnt++
+		if cnt > 4 {
+			break
+		}
+	}
+	for i := 0; i < n; i++ {
+		vr.Assert("label reported ⇔ its cell contains the probe leaf", got[i] == ids[i].Contains(x))
+	}
+	vr.Reach("end")
+}
